@@ -43,14 +43,7 @@ var boundaryProgs = []struct {
 func boundaryCases(w *lib.Writer, tier string, seed uint64) {
 	for _, p := range boundaryProgs {
 		out := luagen.RunIsolated(p.src, 20e9, nil)
-		rows := []string{}
-		for _, t := range out.Trace {
-			parts := make([]string, len(t))
-			for j, v := range t {
-				parts[j] = v.String()
-			}
-			rows = append(rows, strings.Join(parts, " "))
-		}
+		rows := traceRows(out)
 		ok := out.Ok && out.GoFail == "" && len(rows) == len(p.want)
 		if ok {
 			for i := range rows {
